@@ -18,6 +18,7 @@ import sys
 from harness.core import REPO
 
 FILENAME = 'DontCare.lean'
+STUB = 'namespace CG.Generated\n\ndef dontCareDirection : List String := ["<extraction failed>"]\n\nend CG.Generated\n'
 GC = os.path.join('cai_causal_graph', 'graph_components.py')
 TD = os.path.join('cai_causal_graph', 'type_definitions.py')
 
@@ -101,15 +102,42 @@ def dont_care_texts(repo=None):
     return out
 
 
+def dont_care_by_execution():
+    """Fallback when the literal cannot be found in the text (the comparison was restructured): the table is small and
+    closed -- six edge types -- so it is computed by RUNNING `Edge.__eq__` of the working tree on every type: the types for
+    which the edge a -> b of that type equals the edge b -> a of that type, in declaration order.  Exhaustive over the
+    whole domain of the table, so this is the table, not a sample of it."""
+    from harness.core import setup_repo_path
+    setup_repo_path()
+    from cai_causal_graph.graph_components import Edge, Node
+    from cai_causal_graph.type_definitions import EdgeType
+    members = []
+    for t in EdgeType:
+        e1, e2 = Edge(Node('a'), Node('b'), edge_type=t), Edge(Node('b'), Node('a'), edge_type=t)
+        fwd, bwd = e1.__eq__(e2), e2.__eq__(e1)
+        if fwd != bwd:
+            raise AssertionError(f'Edge.__eq__ is not symmetric on flipped {t!r} edges')
+        if fwd:
+            members.append(t.name)
+    return members, [EdgeType[m].value for m in members]
+
+
 def generate():
-    members = dont_care_members()
-    texts = dont_care_texts()
+    how = 'the `dont_care_direction` list literal of `Edge.__eq__`, read with `ast`'
+    try:
+        members = dont_care_members()
+        texts = dont_care_texts()
+    except Exception as e:  # noqa: BLE001 -- the literal is gone from the text: compute the table by execution
+        members, texts = dont_care_by_execution()
+        how = ('computed by running `Edge.__eq__` on a flipped pair of every edge type (the literal was not found in the '
+               'text: ' + str(e).replace('-/', '- /')[:160] + ')')
     lits = ', '.join('"' + t.replace('\\', '\\\\').replace('"', '\\"') + '"' for t in texts)
     text = (
         '/-\n'
         'GENERATED by harness/srcgen/c07_dontcare.py -- do not edit.\n'
-        'The `dont_care_direction` list literal of `Edge.__eq__` (cai_causal_graph/graph_components.py), each member\n'
-        'resolved to its value text through the `EdgeType` enum (cai_causal_graph/type_definitions.py).\n'
+        'The edge types for which `Edge.__eq__` (cai_causal_graph/graph_components.py) ignores the declared orientation,\n'
+        'as value texts of the `EdgeType` enum (cai_causal_graph/type_definitions.py).\n'
+        f'source: {how}\n'
         f'members = {", ".join("EdgeType." + m for m in members)}\n'
         '-/\n'
         'namespace CG.Generated\n\n'
